@@ -5,24 +5,117 @@ Layer 0 (hand-written): the record types of the tables the translator extracts f
 namespace Cfavml
 namespace Tables
 
+/-! closed vocabularies: every identifier the tables mention is a constructor here, so comparisons
+reduce in the kernel without touching strings. A source identifier outside the vocabulary makes the
+generated table fail to compile, which is reported as a broken obligation. -/
+
+inductive ElemTy where
+  | f32 | f64 | i8 | i16 | i32 | i64 | u8 | u16 | u32 | u64
+  /-- the generic element type of `impl<T> SimdRegister<T> for Fallback` -/
+  | T
+  deriving DecidableEq, Repr, Inhabited
+
+inductive RegName where
+  | Fallback | Avx2 | Avx2Fma | Avx512 | Neon
+  deriving DecidableEq, Repr, Inhabited
+
+inductive Kernel where
+  | generic_dot_product | generic_cosine | generic_euclidean | generic_squared_norm | generic_sum
+  | generic_max_horizontal | generic_min_horizontal | generic_max_vertical | generic_min_vertical
+  | generic_max_value | generic_min_value
+  | generic_add_value | generic_sub_value | generic_mul_value | generic_div_value
+  | generic_add_vector | generic_sub_vector | generic_mul_vector | generic_div_vector
+  deriving DecidableEq, Repr, Inhabited
+
+inductive ExportMacro where
+  | export_op_horizontal | export_op_vertical | export_op_value | export_distance_op
+  | export_vector_x_value_op | export_vector_x_vector_op
+  deriving DecidableEq, Repr, Inhabited
+
+inductive SafeMacro where
+  | export_safe_horizontal_op | export_safe_vertical_op | export_safe_value_op
+  | export_safe_distance_op | export_safe_fma_norm_op | export_safe_nofma_norm_op
+  | export_safe_arithmetic_vector_x_value_op | export_safe_arithmetic_vector_x_vector_op
+  deriving DecidableEq, Repr, Inhabited
+
+/-- the `_`-separated tokens of routine names -/
+inductive Tok where
+  | f32 | f64 | i8 | i16 | i32 | i64 | u8 | u16 | u32 | u64
+  | xany | xconst
+  | fallback | avx2 | avx512 | neon
+  | fma | nofma
+  | dot | cosine | squared | euclidean | norm | sum | max | min | horizontal | vertical | value
+  | add | sub | mul | div | vector
+  deriving DecidableEq, Repr, Inhabited
+
+/-- target features / ISA extensions -/
+inductive Feat where
+  | sse | sse2 | sse3 | ssse3 | sse4_1 | sse4_2 | avx | avx2 | fma | avx512f | avx512bw | avx512dq | avx512vl | neon
+  deriving DecidableEq, Repr, Inhabited
+
+inductive CargoFeature where
+  | std | nightly | benchmark_aligned | benchmark_avx512 | default
+  deriving DecidableEq, Repr, Inhabited
+
+inductive Arch where
+  | x86 | x86_64 | aarch64
+  deriving DecidableEq, Repr, Inhabited
+
+inductive Flag where
+  | test | miri | docsrs | debug_assertions | unix | cfavml_verif
+  deriving DecidableEq, Repr, Inhabited
+
+/-- dispatch slot labels of `dispatch!` -/
+inductive Slot where
+  | avx512 | avx2fma | avx2 | neon | fallback
+  deriving DecidableEq, Repr, Inhabited
+
+inductive Form where
+  | xconst | xany
+  deriving DecidableEq, Repr, Inhabited
+
+/-- parameter names of the safe wrappers -/
+inductive Param where
+  | a | b | result | value
+  deriving DecidableEq, Repr, Inhabited
+
+/-- the two sides of the wrappers' `assert_eq!`s -/
+inductive LenTerm where
+  | len (p : Param)
+  | dims
+  deriving DecidableEq, Repr, Inhabited
+
+/-- the 30 methods of `SimdRegister` -/
+inductive Method where
+  | elements_per_dense | elements_per_lane | load | filled | zeroed | load_dense | filled_dense | zeroed_dense
+  | add | sub | mul | div | fmadd | max | min
+  | add_dense | sub_dense | mul_dense | div_dense | fmadd_dense | max_dense | min_dense
+  | sum_to_value | sum_to_register | max_to_value | max_to_register | min_to_value | min_to_register
+  | write | write_dense
+  deriving DecidableEq, Repr, Inhabited
+
+/-- availability checks of dispatch.rs -/
+inductive Guard where
+  | is_avx512_available | is_avx2_available | is_fma_available | is_neon_available
+  deriving DecidableEq, Repr, Inhabited
+
 /-- `#[cfg(..)]` predicates -/
 inductive Cfg where
-  | feature (name : String)
-  | targetArch (name : String)
-  | targetFeature (name : String)
-  | flag (name : String)
+  | feature (f : CargoFeature)
+  | targetArch (a : Arch)
+  | targetFeature (f : Feat)
+  | flag (f : Flag)
   | not (c : Cfg)
   | any (cs : List Cfg)
   | all (cs : List Cfg)
   deriving Repr, Inhabited
 
-/-- a build configuration: enabled cargo features, target architecture, compile-time target features,
-other flags (`test`, `debug_assertions`, ..) -/
+/-- a build configuration -/
 structure Build where
-  features : List String
-  arch : String
-  targetFeatures : List String
-  flags : List String
+  features : List CargoFeature
+  arch : Arch
+  targetFeatures : List Feat
+  flags : List Flag
   deriving Repr
 
 mutual
@@ -42,25 +135,27 @@ def Cfg.evalAll (b : Build) : List Cfg → Bool
   | c :: cs => Cfg.eval b c && Cfg.evalAll b cs
 end
 
-/-- one `export_*!` invocation in `danger/export_*.rs` (it defines an xconst and an xany routine) -/
+/-- one `export_*!` invocation in `danger/export_*.rs` (it defines an xconst and an xany routine).
+String fields are for reports only; proofs use the enum / token fields. -/
 structure ExportRow where
-  macro_ : String
-  ty : String
-  reg : String
-  op : String
-  xconst : String
-  xany : String
+  macro_ : ExportMacro
+  ty : ElemTy
+  reg : RegName
+  op : Kernel
+  xconst : List Tok
+  xany : List Tok
   hasFeatures : Bool
-  features : List String
-  module : String
+  features : List Feat
   moduleCfg : Cfg
+  xanyName : String
+  module : String
   file : String
   line : Nat
   deriving Repr, Inhabited
 
 /-- one function of one arm of an `export_*!` macro definition -/
 structure ExportArmFn where
-  macro_ : String
+  macro_ : ExportMacro
   withFeatures : Bool
   nameVar : String
   hasTargetFeature : Bool
@@ -72,21 +167,23 @@ structure ExportArmFn where
   deriving Repr, Inhabited
 
 structure SafeSlot where
-  label : String
-  fnVar : String
+  label : Slot
+  /-- the macro metavariable naming the routine: (slot it is named after, form it is named after) -/
+  fnVarSlot : Slot
+  fnVarForm : Form
   passesDims : Bool
-  args : List String
+  args : List Param
   deriving Repr, Inhabited
 
 /-- one function (xconst or xany form) of an `export_safe_*!` macro definition -/
 structure SafeArmFn where
-  macro_ : String
-  nameVar : String
+  macro_ : SafeMacro
+  form : Form
   constDims : Bool
-  params : List (String × String)
+  params : List (Param × String)
   returnsValue : Bool
-  /-- `assert_eq!(lhs, rhs, ..)` in order; `len x` stands for `x.len()` -/
-  asserts : List (String × String)
+  /-- `assert_eq!(lhs, rhs, ..)` in order -/
+  asserts : List (LenTerm × LenTerm)
   slots : List SafeSlot
   /-- statements that are neither an assert nor the dispatch -/
   otherStmts : Nat
@@ -94,32 +191,34 @@ structure SafeArmFn where
 
 /-- one `export_safe_*!` invocation -/
 structure SafeRow where
-  macro_ : String
-  ty : String
-  constName : String
-  anyName : String
-  /-- macro metavariable ↦ export routine named at the invocation -/
-  bindings : List (String × String)
+  macro_ : SafeMacro
+  ty : ElemTy
+  constName : List Tok
+  anyName : List Tok
+  /-- (slot, form) of the macro metavariable ↦ export routine named at the invocation -/
+  bindings : List (Slot × Form × List Tok)
+  anyNameStr : String
   file : String
   line : Nat
   deriving Repr, Inhabited
 
 /-- one optional candidate of the `dispatch!` macro body, in the order the body tests them -/
 structure DispatchCand where
-  label : String
+  label : Slot
   cfg : Cfg
-  guards : List String
+  guards : List Guard
   condIsGuardConjunction : Bool
   returnsCall : Bool
   deriving Repr, Inhabited
 
 structure ImplMethodRow where
-  reg : String
-  ty : String
-  method : String
+  reg : RegName
+  ty : ElemTy
+  method : Method
   isOverride : Bool
-  intrinsics : List String
-  calls : List (String × String × String)
+  /-- indices into `intrinsicFeatures` -/
+  intrinsics : List Nat
+  calls : List (RegName × ElemTy × Method)
   deriving Repr, Inhabited
 
 structure ExternalRef where
